@@ -88,7 +88,8 @@ def _sig(params, rng, is_mw, bad_next, allow_kwonly, allow_posonly, extra_next=N
     return ', '.join(parts), kinds
 
 
-CARRIERS = ('function', 'lambda', 'method', 'callable_obj', 'staticmethod', 'classmethod', 'decorated')
+CARRIERS = ('function', 'lambda', 'method', 'callable_obj', 'staticmethod', 'classmethod', 'decorated', 'decorated_method',
+            'decorated_callable_obj', 'decorated_classmethod')
 
 
 def _wrap_carrier(carrier, sig, body_call, names, env):
@@ -116,6 +117,19 @@ def _wrap_carrier(carrier, sig, body_call, names, env):
         src = 'def f(%s):\n    return %s\n' % (sig, call)
         exec(src, env)
         return clastic_decorator(deco)(env['f'])
+    if carrier in ('decorated_method', 'decorated_callable_obj', 'decorated_classmethod'):
+        # clastic_decorator applied to a bound method / callable object / class method
+        from functools import wraps
+        from clastic.decorators import clastic_decorator
+
+        def deco2(fn):
+            @wraps(fn)
+            def g(*a, **kw):
+                return fn(*a, **kw)
+            return g
+        inner = _wrap_carrier({'decorated_method': 'method', 'decorated_callable_obj': 'callable_obj',
+                               'decorated_classmethod': 'classmethod'}[carrier], sig, body_call, names, env)
+        return clastic_decorator(deco2)(inner)
     selfsig = ('self, ' + sig) if sig else 'self'
     if carrier == 'method':
         src = 'class C(object):\n    def f(%s):\n        return %s\n' % (selfsig, call)
